@@ -355,11 +355,23 @@ class Model:
                                     # Just assign without indexing
                                     val = value
                                 elif isinstance(value, list):
+                                    # An attribute given inside the class of an array of
+                                    # components only has the dimensions of the innermost
+                                    # symbol(s): select with the trailing indices.
+                                    n_dim, v = 0, value
+                                    while isinstance(v, list) and v:
+                                        n_dim, v = n_dim + 1, v[0]
                                     val = value
-                                    for i in ind:
+                                    for i in ind[len(ind) - n_dim :]:
                                         val = val[i]
                                 elif isinstance(value, (ca.DM, np.ndarray)):
-                                    val = value[ind]
+                                    if isinstance(value, np.ndarray):
+                                        n_dim = value.ndim
+                                    elif iterator_shape[-2:] == value.shape:
+                                        n_dim = 2
+                                    else:
+                                        n_dim = 1  # DM column vector
+                                    val = value[ind[len(ind) - n_dim :]]
                                     if old_var.python_type in {float, int}:
                                         val = old_var.python_type(val)
                                 else:
